@@ -330,6 +330,17 @@ func refRec(b []byte, v *vtRec) []byte {
 
 func H_TB_rec(t *verifrt.T) {
 	depth := t.Choice("depth", t.Param("DEPTH")+1)
+	if t.Param("PROP") != 8 && t.Choice("shape", 2) == 1 {
+		// the recursive pointer is the LAST field (the program's frame ends with the recursion slots)
+		head := &vtList{V: int(smallInt(t, "v"))}
+		cur := head
+		for i := 0; i < depth; i++ {
+			cur.Next = &vtList{V: i + 2}
+			cur = cur.Next
+		}
+		checkMarshal(t, head, refList(nil, head))
+		return
+	}
 	head := &vtRec{V: int(smallInt(t, "v")), Tail: plainString(t, "tail", 1)}
 	cur := head
 	for i := 0; i < depth; i++ {
@@ -708,9 +719,7 @@ func H_TB_recmap(t *verifrt.T) {
 	b = append(b, `,"v":`...)
 	b = refInt(b, int64(v.V))
 	b = append(b, '}')
-	// recorded finding D14: recursive pointer as FIRST field, map[string]interface{} after it,
-	// nested element with a non-empty map: the VM applies the wrong program to the map's values
-	t.KnownIfCrash("D14-recursive-first-field-then-map-of-interface-crashes", v.Next != nil && len(v.Next.M) > 0)
+	// (finding D14, a crash for the nested element with a non-empty map, is repaired: no allowance)
 	checkMarshal(t, v, b)
 }
 
